@@ -28,12 +28,14 @@ inductive Instr
   | pparam (i : Nat)                            -- `println "p" local.p<i>`
   | wait (ms : Nat)
   | waittill (o : Nat) (names : List Nat)      -- one name: `waittill`; several: `waittill_any`
+  | waittillTimeout (o n ms : Nat)             -- `waittill_timeout`
   | notify (o n : Nat)
   | endon (o n : Nat)
   | delete (o : Nat)
   | thread (l : Nat)
   | waitthread (l : Nat)
   | pause
+  | waitParent (ms : Nat)                       -- `local.p0 wait d` where p0 is the spawning thread
   | end_ (v : EndV)
   | spawn (o : Nat)
   deriving Repr, DecidableEq, Inhabited
@@ -56,6 +58,7 @@ structure Th where
   call : Option Nat := none   -- host call whose result cell this thread's VM shares
   dead : Bool := false        -- the `ScriptThread` object is gone (weak references read null)
   params : List V := []       -- the label's declared parameters after binding
+  parent : Nat := 0           -- the thread that spawned this one (passed as first argument), 0 = none
   deriving Repr, Inhabited
 
 def nameDelete : Nat := 1000
@@ -82,6 +85,7 @@ structure State where
   nextCall : Nat := 1
   outOfFuel : Bool := false
   depth : Nat := 0                           -- `ScriptExecutionStack::stackDepth`
+  events : List (Nat × Nat) := []            -- posted `_cancelwaiting` events (thread, due), queue order
   deriving Inhabited
 
 namespace State
@@ -132,6 +136,15 @@ def vmSuspend (s : State) (t : Nat) : State :=
 def vmResume (s : State) (t : Nat) : State :=
   s.setTh t (fun th => if th.vm == .suspended then { th with vm := .running } else th)
 
+/-- `EventQueue::PostEvent`: sorted by due time, after every event with the same or an earlier time -/
+def postEvent (s : State) (t due : Nat) : State :=
+  let before := s.events.takeWhile (fun e => e.2 ≤ due)
+  let after := s.events.dropWhile (fun e => e.2 ≤ due)
+  { s with events := before ++ (t, due) :: after }
+
+/-- `CancelPendingEvents` / `CancelEventsOfType(_cancelwaiting)` of one thread -/
+def cancelEvents (s : State) (t : Nat) : State := { s with events := s.events.filter (fun e => !(e.1 == t)) }
+
 /-- `ScriptMaster::AddTiming` -/
 def addTiming (s : State) (t : Nat) (d : Nat) : State :=
   { s with timer := s.timer.add t (s.scaled + d) }
@@ -176,6 +189,7 @@ def deleteThread : Nat → State → Nat → State
           let s1 := if th.attached then removeFromInst s1 t th.inst else s1
           if th.vm == .idling then s1.setTh t (fun th => { th with vmObj := false }) else s1
       -- ~Listener
+      let s := cancelEvents s t
       let s := unregister fuel s t nameDelete
       let s := unregister fuel s t nameRemove
       let s := unregisterAll fuel s t
@@ -236,7 +250,9 @@ def stoppedWaitFor : Nat → State → Nat → Nat → Bool → State
     | some th =>
       if !th.hasVM then s
       else if deleting then deleteThread fuel s t
-      else if th.ts == .waiting then
+      else
+      let s := cancelEvents s t          -- CancelEventsOfType(EV_ScriptThread_CancelWaiting)
+      if th.ts == .waiting then
         if name != 0 then
           if th.vm == .idling then scriptExecuteInternal fuel s t   -- Execute()
           else vmResume s t
@@ -382,6 +398,20 @@ def exec : Nat → State → Nat → Th → Instr → State
               vmSuspend (s.setTh c (fun th => { th with ts := .waiting })) c
             else s
           { s with waitFor := Tbl.push s.waitFor (c, n) o }) s
+    | .waittillTimeout o n ms =>
+      if !s.objs.contains o then s else
+      match s.cur with
+      | none => s
+      | some c =>
+        let s := { s with notify := Tbl.push s.notify (o, n) c }
+        let s :=
+          if !Tbl.hasOwner s.waitFor c then
+            let s := stop fuel s c
+            vmSuspend (s.setTh c (fun th => { th with ts := .waiting })) c
+          else s
+        let s := { s with waitFor := Tbl.push s.waitFor (c, n) o }
+        -- CurrentThread()->PostEvent(new Event(EV_ScriptThread_CancelWaiting), timeout)
+        postEvent s c (s.clock + ms)
     | .notify o n =>
       if !s.objs.contains o then s else unregister fuel s o n
     | .endon o n =>
@@ -403,7 +433,7 @@ def exec : Nat → State → Nat → Th → Instr → State
       if l ≥ s.prog.length then s else
       let t' := s.nextTid
       let s := { s with nextTid := t' + 1,
-                        threads := s.threads ++ [(t', ({ label := l, inst := th.inst, params := bindLoop (s.progParams.getD l 0) 0 [] } : Th))],
+                        threads := s.threads ++ [(t', ({ label := l, inst := th.inst, params := bindLoop (s.progParams.getD l 0) 0 [], parent := t } : Th))],
                         insts := s.insts.map (fun (e : Nat × List Nat) => if e.1 == th.inst then (e.1, t' :: e.2) else e) }
       scriptExecuteInternal fuel s t'
     | .waitthread l =>
@@ -413,7 +443,7 @@ def exec : Nat → State → Nat → Th → Instr → State
       let t' := s.nextTid
       let i' := s.nextInst
       let s := { s with nextTid := t' + 1, nextInst := i' + 1,
-                        threads := s.threads ++ [(t', ({ label := l, inst := i', params := bindLoop (s.progParams.getD l 0) 0 [] } : Th))],
+                        threads := s.threads ++ [(t', ({ label := l, inst := i', params := bindLoop (s.progParams.getD l 0) 0 [], parent := t } : Th))],
                         insts := (i', [t']) :: s.insts }
       match s.cur with
       | none => scriptExecuteInternal fuel s t'
@@ -430,6 +460,13 @@ def exec : Nat → State → Nat → Th → Instr → State
     | .pause =>
       let s := stop fuel s t
       vmSuspend s t
+    | .waitParent ms =>
+      -- the `wait` command sent to another thread object: `ScriptThread::EventWait` → `Wait(ms)` on it
+      if th.parent == 0 || !s.alive th.parent || !s.hasVM th.parent then s else   -- NIL / NULL listener: script error
+      let p := th.parent
+      let s := stop fuel s p
+      let s := addTiming (s.setTh p (fun th => { th with ts := .timing })) p ms
+      vmSuspend s p
     | .end_ ev =>
       -- End()/EndRef(): result into the shared cell, then `delete m_Thread`.  Ending with a NIL
       -- value is indistinguishable from a plain `end` for the host.
@@ -493,11 +530,25 @@ def hostScript (s : State) (prog : List (List Instr)) (params : List Nat) : Stat
   let s := if s.prog.isEmpty then s else killAllInsts s
   { s with prog := prog, progParams := params }
 
+/-- `EventQueue::ProcessPendingEvents`: deliver every due `_cancelwaiting` event
+    (`ScriptThread::CancelWaiting` = `CancelWaitingAll`) -/
+def processEvents : Nat → State → State
+  | 0, s => { s with outOfFuel := true }
+  | fuel + 1, s =>
+    match s.events with
+    | [] => s
+    | (t, due) :: rest =>
+      if due > s.clock then s else
+      let s := { s with events := rest }
+      let s := if s.alive t && s.hasVM t then cancelWaitingAll defaultFuel s t else s
+      processEvents fuel s
+
 /-- `ScriptContext::Execute()` at time scale 1 with the injected clock -/
 def hostExecute (s : State) : State :=
   let delta := s.clock - s.lastClock
   let s := { s with scaled := s.scaled + delta, lastClock := s.clock }
   let s := { s with timer := s.timer.setTime s.clock }
+  let s := processEvents defaultFuel s
   executeRunning defaultFuel s
 
 end Morfuse.Sched
